@@ -54,6 +54,10 @@ def main():
         with ThreadPoolExecutor(max_workers=vlib.NCPU) as ex:
             results = list(ex.map(lambda q: vlib.run_query(q, workdir), queries))
         violations = []; known_hits = {}; problems = []; others = []
+        aux = {}
+        for r in results:
+            for k, v in getattr(r, "aux", {}).items():
+                aux[k] = v and aux.get(k, True)
         for r in results:
             q = r.q
             line = "[%s] %-34s %-12s backend=%-8s props=%d ok=%d fail=%d unwind_fail=%d wall=%.1fs solver=%s rss=%sMB" % (
@@ -72,6 +76,10 @@ def main():
                 else:
                     problems.append("%s: loop bound exceeded (%s %s) - bound too small for current code" % (
                         q.name, p.get("property"), p.get("description")))
+            if q.guard is not None and aux.get(q.guard[0]) is not None and aux.get(q.guard[0]) != q.guard[1]:
+                if r.failed:
+                    others.append("%s: %d condition(s) not counted: this variant applies only when %s is %s" % (q.name, len(r.failed), q.guard[0], q.guard[1]))
+                continue
             for p in r.failed:
                 kind, label = vlib.classify_prop(p)
                 m = re.match(r"^(C\d\d(?:,C\d\d)*):", label)
